@@ -839,6 +839,9 @@ impl FixtureDatabase {
                     self.collect_names_from_expr(elt, names);
                 }
             }
+            Expr::Starred(starred) => {
+                self.collect_names_from_expr(&starred.value, names);
+            }
             _ => {}
         }
     }
